@@ -273,24 +273,31 @@ def search(ctx):
             continue
         if s == ("ok", b""):
             continue        # an empty prefixed form is outside C20's quantifier (the classes reject it: C02); the helper passes it through
-        if (allow, p) not in objs:
-            objs[(allow, p)] = (Client(("h", 1), key_prefix=p, allow_unicode_keys=allow),
-                                PooledClient(("h", 1), key_prefix=p, allow_unicode_keys=allow),
-                                HashClient([], key_prefix=p, allow_unicode_keys=allow, ignore_exc=True))
-        cl, pc, hc = objs[(allow, p)]
-        for site, f in (("Client.check_key", lambda: cl.check_key(k, cl.key_prefix)),
-                        ("PooledClient.check_key", lambda: pc.check_key(k)),
-                        ("HashClient._get_client", lambda: hc._get_client(k))):
-            n_cls += 1
-            try:
-                v = f()
-                got = ("ok", v if site != "HashClient._get_client" else s[1])
-            except BaseException as e:  # noqa
-                got = ("ex", exn_name(e))
-            if got != s:
-                found.append({"input": {"key": repr(k), "allow_unicode_keys": allow, "prefix": repr(p)}, "site": site,
-                              "observed": repr(got), "expected": repr(s), "oracle": "Spec.LegalKey.key_spec (extracted)",
-                              "size": len(k) + len(p)})
+        # the prefix as the classes are given it: bytes, and (when it is ASCII) the same prefix as a str - every class encodes it
+        spellings = [p]
+        try:
+            spellings.append(p.decode("ascii"))
+        except UnicodeDecodeError:
+            pass
+        for pg in spellings:
+            if (allow, pg) not in objs:
+                objs[(allow, pg)] = (Client(("h", 1), key_prefix=pg, allow_unicode_keys=allow),
+                                     PooledClient(("h", 1), key_prefix=pg, allow_unicode_keys=allow),
+                                     HashClient([], key_prefix=pg, allow_unicode_keys=allow, ignore_exc=True))
+            cl, pc, hc = objs[(allow, pg)]
+            for site, f in (("Client.check_key", lambda: cl.check_key(k, cl.key_prefix)),
+                            ("PooledClient.check_key", lambda: pc.check_key(k)),
+                            ("HashClient._get_client", lambda: hc._get_client(k))):
+                n_cls += 1
+                try:
+                    v = f()
+                    got = ("ok", v if site != "HashClient._get_client" else s[1])
+                except BaseException as e:  # noqa
+                    got = ("ex", exn_name(e))
+                if got != s:
+                    found.append({"input": {"key": repr(k), "allow_unicode_keys": allow, "prefix": repr(pg)}, "site": site,
+                                  "observed": repr(got), "expected": repr(s), "oracle": "Spec.LegalKey.key_spec (extracted)",
+                                  "size": len(k) + len(p) + (0 if pg is p else 0.5)})
     f2, n_cmd = command_probe(cs, spec)
     found += f2
     f3, n_ign = ignore_exc_probe(cs, spec)
@@ -318,6 +325,24 @@ def replay(ctx, obj):
         f = [x for x in f if x["site"] == v["site"]]
         print(v["site"], "key", repr(k)[:60], "prefix", repr(p)[:40], "->", f[0]["observed"] if f else "as the specification says", " expected", v["expected"])
         return bool(f)
+    if v.get("site") in ("Client.check_key", "PooledClient.check_key", "HashClient._get_client"):
+        from pymemcache.client.base import Client, PooledClient
+        from pymemcache.client.hash import HashClient
+        from harness.core import exn_name
+        allow = i["allow_unicode_keys"]
+        try:
+            if v["site"] == "Client.check_key":
+                cl = Client(("h", 1), key_prefix=p, allow_unicode_keys=allow)
+                got = ("ok", cl.check_key(k, cl.key_prefix))
+            elif v["site"] == "PooledClient.check_key":
+                got = ("ok", PooledClient(("h", 1), key_prefix=p, allow_unicode_keys=allow).check_key(k))
+            else:
+                HashClient([], key_prefix=p, allow_unicode_keys=allow, ignore_exc=True)._get_client(k)
+                got = ("ok", eval(v["expected"])[1])
+        except BaseException as e:  # noqa
+            got = ("ex", exn_name(e))
+        print(v["site"], "key", repr(k)[:60], "prefix", repr(p)[:40], "->", got, " expected", v["expected"])
+        return repr(got) != v["expected"]
     r = impl_helper(k, i["allow_unicode_keys"], p)
     print("check_key_helper(%r, %r, %r) ->" % (k, i["allow_unicode_keys"], p), r, " expected", v["expected"])
     return repr(r) != v["expected"]
